@@ -113,6 +113,8 @@ class CallMixin:
                 return SInt(set_card(ops.s_mem(self.R(st, v), ref(v.t))))
             if k.head == "tuple":
                 return SInt(z3.IntVal(len(k) - 1))
+            if k.head == "vtuple":
+                return SInt(seq_len(v.t))
             raise OutOfSubset("len of kind %r (line %s)" % (v.k, node.lineno))
         if name == "isinstance":
             v = self.ev(node.args[0], st, cx)
@@ -140,15 +142,25 @@ class CallMixin:
             v = self.ev(node.args[1], st, cx)
             k = kind_of_annotation(node.args[0], uni)
             return SV(v.t, k if k != ANY else v.k)
+        if name == "tuple" and node.args:
+            v = self.ev(node.args[0], st, cx)
+            k = unopt(v.k)
+            if k.head in ("tuple", "vtuple"):
+                return v
+            if k.head == "list":
+                sv_ = self.R(st, v)
+                return SV(seq_of(ops.l_len(sv_, ref(v.t)), ops.l_el(sv_, ref(v.t))), K("vtuple", k[1]), v.h)
+            raise OutOfSubset("tuple() of kind %r" % (v.k,))
         if name in ("list", "tuple"):
             if not node.args:
                 return SV(VRef(ops.new_list(st, z3.IntVal(0), z3.K(IntS, VNone))), K("list", ANY))
             v = self.ev(node.args[0], st, cx)
             k = unopt(v.k)
-            if k.head in ("list", "vtuple"):
+            if k.head in ("list", "vtuple", "tuple"):
                 r = ref(v.t)
                 sv_ = self.R(st, v)
-                return SV(VRef(ops.new_list(st, ops.l_len(sv_, r), ops.l_el(sv_, r))), K("list", k[1]))
+                return SV(VRef(ops.new_list(st, ops.l_len(sv_, r), ops.l_el(sv_, r))),
+                          K("list", k[1] if k.head != "tuple" else ANY))
             if k.head in ("set",):
                 return self.enum_of_set(st, v)
             raise OutOfSubset("list() of kind %r" % (v.k,))
@@ -168,6 +180,58 @@ class CallMixin:
             if k.head == "set":
                 return SV(VRef(ops.new_set(st, ops.s_mem(self.R(st, v), ref(v.t)))), k)
             raise OutOfSubset("set() of kind %r" % (v.k,))
+        if name in uni.recfuns:
+            return self.recfun_app(name, [self.ev(a, st, cx) for a in node.args], st)
+        if name == "unfold":
+            # unfold(f, args..., i): assume f(args, 0) == base and f(args, i + 1) == step(i)  (definition instances)
+            fname = node.args[0].id if isinstance(node.args[0], ast.Name) else node.args[0].value
+            rf = uni.recfuns[fname]
+            args = [self.ev(a, st, cx) for a in node.args[1:]]
+            ps = rf["params"]
+            env0 = dict(zip(ps, args))
+            rk = kind_of_annotation(rf.get("returns", "int"), uni)
+            zero = list(args[:-1]) + [SInt(z3.IntVal(0))]
+            nxt = list(args[:-1]) + [SInt(self.as_int(args[-1]) + 1)]
+            scx = Ctx(spec=True, pre=cx.pre, pre_env=cx.pre_env, entry_alloc=cx.entry_alloc)
+            base = self.evs(rf["base"], st, scx, dict(env0))
+            step = self.evs(rf["step"], st, scx, dict(env0))
+            st.assume(self.eq(st, self.recfun_app(fname, zero, st), base), glob=True)
+            st.assume(z3.Implies(self.as_int(args[-1]) >= 0,
+                                 self.eq(st, self.recfun_app(fname, nxt, st), step)), glob=True)
+            return SBool(z3.BoolVal(True))
+        if name == "next":
+            v = self.ev(node.args[0], st, cx)
+            k = unopt(v.k)
+            if k.head in ("list", "vtuple"):
+                # a fresh generator modelled as the list of what it yields: next() is its first element
+                sv_ = self.R(st, v)
+                ek = k[1] if len(k) > 1 else ANY
+                self.safety(st, ops.l_len(sv_, ref(v.t)) > 0, "next-on-empty", node)
+                t = ops.l_get(sv_, ref(v.t), z3.IntVal(0))
+                ops.assume_typed_if(st, ops.l_len(sv_, ref(v.t)) > 0, t, ek, v.h)
+                return SV(t, ek, v.h)
+            if k.head == "iter":
+                r = ref(v.t)
+                lst = ops.f_get(st, "__it_list", r)
+                pos = ival(ops.f_get(st, "__it_pos", r))
+                hv = self.iter_heaps.get(z3.simplify(r).get_id())
+                t = ops.l_get(hv or st, ref(lst), pos)
+                st.heap["f___it_pos"] = z3.Store(st.field("__it_pos"), r, VInt(pos + 1))
+                self.safety(st, pos < ops.l_len(hv or st, ref(lst)), "next-on-exhausted", node)
+                assume_typed(st, t, k[1], hv)
+                return SV(t, k[1], hv)
+            raise OutOfSubset("next() of kind %r" % (v.k,))
+        if name == "chain":
+            parts = [self.ev(a, st, cx) for a in node.args]
+            cur = parts[0]
+            lst_ref = ops.new_list(st, ops.l_len(self.R(st, cur), ref(cur.t)), ops.l_el(self.R(st, cur), ref(cur.t)))
+            for p_ in parts[1:]:
+                lst_ref = ops.l_concat(st, lst_ref, ref(p_.t), st, self.R(st, p_))
+            it = ops.alloc_ref(st)
+            st.heap["f___it_list"] = z3.Store(st.field("__it_list"), it, VRef(lst_ref))
+            st.heap["f___it_pos"] = z3.Store(st.field("__it_pos"), it, VInt(z3.IntVal(0)))
+            ek = unopt(cur.k)[1] if len(unopt(cur.k)) > 1 else ANY
+            return SV(VRef(it), K("iter", ek))
         if name == "pdepth":
             # pdepth(B, k) = #LoopNode - #EndLoopNode among B[0:k]   (uninterpreted; instances of its defining
             # equation are supplied by the ghost statement unfold_pdepth)
@@ -184,6 +248,26 @@ class CallMixin:
             st.assume(z3.And(pdepth_f(el, 0) == 0,
                              pdepth_f(el, k_ + 1) == pdepth_f(el, k_) + z3.If(up, 1, z3.If(dn, -1, 0))), glob=True)
             return SBool(z3.BoolVal(True))
+        if name == "is_empty":
+            v = self.ev(node.args[0], st, cx)
+            k = unopt(v.k)
+            sv_ = self.R(st, v)
+            x = bvarV("e")
+            if k.head == "dict":
+                return SBool(z3.And(is_VRef(v.t), z3.ForAll([x], z3.Not(z3.Select(ops.d_has(sv_, ref(v.t)), x)))))
+            if k.head == "set":
+                return SBool(z3.ForAll([x], z3.Not(z3.Select(ops.s_mem(sv_, ref(v.t)), x))))
+            if k.head in ("list", "vtuple", "tuple"):
+                return SBool(ops.l_len(sv_, ref(v.t)) == 0)
+            raise OutOfSubset("is_empty of kind %r" % (v.k,))
+        if name == "rev":
+            v = self.ev(node.args[0], st, cx)
+            sv_ = self.R(st, v)
+            n_ = ops.l_len(sv_, ref(v.t))
+            el_ = ops.l_el(sv_, ref(v.t))
+            j_ = bvar("j")
+            return SV(VRef(ops.new_list(st, n_, ops.mk_list_array(st, j_, n_, z3.Select(el_, n_ - 1 - j_)))),
+                      K("list", unopt(v.k)[1] if len(unopt(v.k)) > 1 else ANY))
         if name == "seq_key":
             v = self.ev(node.args[0], st, cx)
             r = ref(v.t)
@@ -215,6 +299,17 @@ class CallMixin:
                                node, ctor=True)
             return selfv
         raise OutOfSubset("call of %s() has no contract (line %s)" % (name, node.lineno))
+
+    def recfun_app(self, name, args, st):
+        rf = self.uni.recfuns[name]
+        key = "rec_" + name
+        if key not in self.uni.uf:
+            self.uni.uf[key] = z3.Function(key, *([V] * (len(args) - 1) + [IntS, V]))
+        zs = [a.t for a in args[:-1]] + [self.as_int(args[-1])]
+        t = self.uni.uf[key](*zs)
+        rk = kind_of_annotation(rf.get("returns", "int"), self.uni)
+        assume_typed(st, t, rk)
+        return SV(t, rk)
 
     def isinstance_f(self, st, v, clsnode):
         if isinstance(clsnode, ast.Tuple):
